@@ -17,7 +17,9 @@ RULE = (
     "Exhaustive: every string up to length L (6 quick = 8,108,731 strings; 7 thorough = 113,522,235) over one "
     "representative per character class {letter a, digit 1, '_', '.', '-', ':', '/', '#', space, tab, newline, '[', ']', "
     "non-ASCII letter é}, sharded over 16 processes; plus random strings up to length 40 over the same classes, further "
-    "class members (Z, 0, \\r, \\x0b, \\x0c, NBSP, U+2028, ideographic space) and arbitrary Unicode. One evaluation = one "
+    "class members (Z, 0, \\r, \\x0b, \\x0c, NBSP, U+2028, ideographic space) and arbitrary Unicode; plus a complete sweep of "
+    "all 1,112,064 Unicode scalar values in seven positions (alone, first / later prefix character, inside a CURIE prefix, "
+    "as prefix, as and inside the reference) so that no single code point is misclassified. One evaluation = one "
     "string on which is_w3c_prefix and is_w3c_curie are compared with a hand-written predicate transcribing the statement. "
     "Non-trivial = a string containing whitespace, a bracket, '//', a trailing newline or a non-ASCII letter, or on which "
     "the two validators disagree; for the exhaustive part the count is the exact number of such strings (each enumerated "
@@ -105,6 +107,44 @@ def _enum_shard(args):
     return n, nt, samples, first_bad
 
 
+def _codepoint_shard(args):
+    """Every Unicode code point (no surrogates) in the positions where character classes matter: alone, as first and as
+    later character of a prefix, inside the prefix of a CURIE, and inside the reference."""
+    from curies.w3c import is_w3c_curie, is_w3c_prefix
+
+    lo, hi = args
+    n = 0
+    bad = None
+    for cp in range(lo, hi):
+        if 0xD800 <= cp <= 0xDFFF:
+            continue
+        c = chr(cp)
+        for s in (c, "a" + c, c + "a", "a" + c + ":1", c + ":1", "a:" + c, "a:1" + c):
+            n += 1
+            if is_w3c_prefix(s) is not oracle_prefix(s) or is_w3c_curie(s) is not oracle_curie(s):
+                if bad is None:
+                    bad = s
+    return n, bad
+
+
+def codepoint_sweep(tier: str, seed: int, stats: Stats) -> None:
+    step = 0x110000 // 64 + 1
+    jobs = [(lo, min(lo + step, 0x110000)) for lo in range(0, 0x110000, step)]
+    total, bad = 0, None
+    ctx = mp.get_context("fork")
+    with ctx.Pool(min(16, os.cpu_count() or 1)) as pool:
+        for n, b in pool.imap_unordered(_codepoint_shard, jobs):
+            total += n
+            if b is not None and (bad is None or b < bad):
+                bad = b
+    stats.evaluations += total
+    stats.extra["codepoint_sweep_strings"] = total
+    stats.extra["codepoint_sweep"] = "all 1,112,064 Unicode scalar values x 7 positions (alone, 2nd/1st prefix character, in a CURIE prefix, as prefix, as / in the reference)"
+    stats.cls("codepoint-sweep")
+    if bad is not None:
+        raise Violation(_check_string(bad), {"s": bad})
+
+
 def exhaustive(tier: str, seed: int, stats: Stats) -> None:
     L = LEN[tier]
     # shards: the empty string, all single symbols as complete strings are covered by heads of length 1 with rest_len 0
@@ -184,6 +224,7 @@ def random_strings(draw, tier="quick"):
 
 SUBS = [
     Sub(name="exhaustive", kind="custom", check=check, custom=exhaustive, sharded=False),
+    Sub(name="codepoints", kind="custom", check=check, custom=codepoint_sweep, sharded=False, required_classes=("codepoint-sweep",)),
     Sub(name="random", check=check, strategy=lambda tier: random_strings(tier), n={"quick": 8000, "thorough": 60000},
         required_classes=("nt:whitespace", "nt:bracket", "nt:double-slash", "nt:non-ascii", "prefix=True,curie=True", "prefix=False,curie=True", "prefix=False,curie=False")),
 ]
